@@ -196,6 +196,7 @@ theorem learn_sound (s : St) (r : Req) : ∀ f ∈ learn r (exec s r).2, f.holds
     simp [exec, Fact.holds]
   | lockRemove rv n => exact learn_sound_lockRemove s rv n
   | listUsagesOf kd n => intro f hf; simp [learn] at hf
+  | listSel kd n => intro f hf; simp [learn] at hf
   | setStatus k rv cs => intro f hf; simp [learn] at hf
   | removeFin k rv fin => intro f hf; simp [learn] at hf
   | deleteAll kd => intro f hf; simp [learn] at hf
@@ -409,6 +410,7 @@ theorem safe_of_guard (s : St) (c : Ctl) (n : String) (h : Hist) (r : Req)
   | get k => rfl
   | list kd => rfl
   | listUsagesOf kd m => rfl
+  | listSel kd m => rfl
   | setStatus k rv cs => rfl
   | deleteAll kd => rfl
   | lockRemove rv m => rfl
